@@ -35,8 +35,8 @@ THEOREMS = [
     "C03_importance",
     "C03_density",
     "C03_datablock_row",
-    "C03_written_partial",
-    "C03_written_refuted",
+    "C03_written",
+    "C03_written_all",
     "C03_shared_write_refuted",
     "exec_refines",
     "plan_targets",
@@ -198,9 +198,7 @@ def gen_edit(rng, p, kinds=None, hint=None, standalone=False):
                     return [[k, i, None]]
                 return [[k, i, rng.choice(cand)]]
         if k == "fillTransform" and T and not p.print_in_data_block["fill"]:
-            # a FILL read without a transform does not get one written (known finding C03-F1): only generated alone
-            i = pick(i for i, c in enumerate(C) if not c.fill.multiple_universes and c.fill.universe is not None
-                     and (standalone or any(getattr(n, "value", None) == "(" for n in c._fill._tree["data"])))
+            i = pick(i for i, c in enumerate(C) if not c.fill.multiple_universes and c.fill.universe is not None)
             if i is not None:
                 if C[i].fill.transform is not None and rng.random() < 0.3:
                     return [[k, i, None]]
@@ -270,21 +268,20 @@ def gen_edit(rng, p, kinds=None, hint=None, standalone=False):
             if i is not None:
                 return [[k, i, rng.random() < 0.5]]
         if k == "mainToAux" and T:
-            # without a full rotation matrix M cannot be written (known finding C03-F2): only generated alone
-            i = pick(i for i, t in enumerate(T) if len(t.rotation_matrix) == 9 or (standalone and len(t.rotation_matrix) == 0))
+            # behind a partial rotation matrix (3, 5 or 6 entries) M cannot be written (known finding C03-F2): only generated alone
+            i = pick(i for i, t in enumerate(T) if len(t.rotation_matrix) in (0, 9) or standalone)
             if i is not None:
                 return [[k, i, rng.random() < 0.5]]
-        has_mode_card = any(d is p.mode for d in p.data_inputs)
-        if k == "modeAdd" and (has_mode_card or standalone):  # no MODE card: known finding C03-F4, only alone
+        if k == "modeAdd":
             cand = [a for a in ("n", "p", "e") if a not in mode]
             if cand:
                 a = rng.choice(cand)
                 return [[k, a]] + [["importance", i, a, ci.enc(rng.choice([1.0, 0.0, 2.0]))] for i in range(len(C))]
-        if k == "modeRemove" and len(mode) > 1 and standalone:
-            # removing a particle leaves its importances behind (known finding C03-F3): only generated alone
+        if k == "modeRemove" and len(mode) > 1 and rng.random() < 0.5:
             return [[k, rng.choice(mode)]]
-        if k == "modeSet" and rng.random() < 0.3 and (has_mode_card or standalone):
-            return [[k, mode]]
+        if k == "modeSet" and rng.random() < 0.3:
+            return [[k, rng.choice([mode, mode, ["n"], ["n", "p"]]) if all(
+                all(ci.particle(a) in c.importance for c in C) for a in ("n", "p")) else mode]]
         if k == "title":
             return [[k, rng.choice(["edited title", "New Title 2", "x", "title with $ and &"])]]
     return None
@@ -406,6 +403,10 @@ def _context(key, t0_blocks, A0, t0=None):
     if key == ("data", "mode") and t0 is not None and not t0.get(("meta", "mode-card")):
         return "no-mode-card"
     if key[0] == "data" and key[1].startswith("tr") and A0 is not None:
+        num = key[1][2:]
+        k = A0["tr_number"].index(int(num)) if num.isdigit() and int(num) in A0["tr_number"] else None
+        if k is not None and len(A0["rot"][k]) not in (0, 9):
+            return "partial-rotation"
         return "transform-card"
     if key[0] == "cell" and len(key) == 4 and key[2] in spec.CELL_DATA:
         blocks = t0_blocks.get(key[2])
@@ -462,6 +463,8 @@ def judge(case, res, den_base, den_written):
         a, b = t_exp.get(key), t1.get(key)
         if (key[0] == "cell" and key[-1] == "fillstar") or key[0] == "meta":
             continue
+        if key[0] == "cell" and "imp" in key[2:4] and key[-1] not in A["mode"]:
+            continue  # MCNP ignores the importance of a particle that is not in the mode: no part of the problem denoted
         if a is None and b is None:
             continue
         if a is not None and b is not None and ci.close(a, b):
@@ -503,7 +506,7 @@ def _show(x):
 # --------------------------------------------------------------------------- correspondence
 def model_case(case, res):
     ser = res["ser"]
-    return {k: ser[k] for k in ("nodes", "slots", "fields", "impKeys", "counts", "surfKind", "nconst", "fillParens", "probes", "wprobes")} | {"edits": [e for e in case["script"] if e[0] != "addThermal"]}
+    return {k: ser[k] for k in ("nodes", "slots", "fields", "impKeys", "counts", "surfKind", "nconst", "probes", "wprobes")} | {"edits": [e for e in case["script"] if e[0] != "addThermal"]}
 
 
 def _canon_list(xs):
@@ -598,9 +601,13 @@ def compare_written(res, rm, den_written, A_end):
     t1 = ci.table(den_written)
     w = res["ser"]["wprobes"]
     impl = written_of_table(t1, A_end, w)
+    last = res["steps"][-1]["alpha"] if res["steps"] and isinstance(res["steps"][-1]["alpha"], list) else res["alpha0"]
+    mode = set((last[res["probes"].index(["mode"])].get("strs") or []))
     for k, a, b in zip(w, rm["written"], impl):
         if b is None:
             continue
+        if k[0] == "cellImp" and k[2] not in mode:
+            continue  # where (and whether) the importances of a particle outside the mode are printed is placement (C09)
         a = ci.canon_obs(a)
         if a == {"val": None}:
             a = "absent"
@@ -744,7 +751,7 @@ def run(chk):
     corpus = load_corpus()
     gen = [c for c in pmap(_gen_case, jobs) if c is not None]
     gen += [c for c in pmap(_gen_alone, [(rng.getrandbits(48), t, l, k) for (t, l) in texts[: chk.pick(40, 200)]
-                                         for k in ("fillTransform", "mainToAux", "modeAdd", "modeRemove")]) if c is not None]
+                                         for k in ("mainToAux",)]) if c is not None]
     cases = corpus + gen + exhaustive_cases(chk)
     chk.units["U-setter"] = {"corpus": len(corpus), "random_scripts": len(gen), "exhaustive_single_edits": len(cases) - len(corpus) - len(gen)}
     chk.exhaustive = False
